@@ -379,14 +379,17 @@ class SockObj(object):
                 s.ev("rx", self._fd, m)
                 return out
             if d.rd_shut:
+                k.last_err[d.tag] = "recv"
                 return b""
             if not rx.inflight:
                 if rx.rst:
                     rx.rst = False  # error is reported once, then EOF (like SO_ERROR being cleared)
                     rx.fin = True
                     s.count("recv-econnreset")
+                    k.last_err[d.tag] = "recv"
                     raise _err(E.ECONNRESET)
                 if rx.fin:
+                    k.last_err[d.tag] = "recv"
                     return b""
             to = self._timeout
             if to == 0.0:
@@ -423,6 +426,7 @@ class SockObj(object):
                     s.count("send-after-peer-close-ok")
                     return len(data)
                 s.count("send-epipe")
+                k.last_err[d.tag] = "send"
                 raise _err(E.ECONNRESET if d.rx.rst else E.EPIPE)
             sp = tx.space()
             if sp > 0:
@@ -651,6 +655,7 @@ class Kernel(object):
         self.send_hook = None
         self.cfg_rst_on_unread = False
         self.fd_high = 0
+        self.last_err = {}          # tag -> 'recv' | 'send': the transport call that most recently failed / hit EOF
         sim.sources.append(self)
         sim.idle_hooks.append(self._idle)
         self.src_id = 0
@@ -855,6 +860,8 @@ class Kernel(object):
         s = self.sim
         s.count("fault:%s-%s" % (op, act))
         s.ev("fault", d.tag, op, act)
+        if op in ("recv", "send"):
+            self.last_err[d.tag] = op
         if act == "eof":
             # peer goes away gracefully right now; what is already readable stays readable
             self.kill_connection(d, "eof", op)
